@@ -17,7 +17,7 @@ from . import c02
 
 PROPERTY = "C03"
 LEVEL = "exploration"
-BUDGET = {"quick": 170, "thorough": 3000}
+BUDGET = {"quick": 300, "thorough": 3000}
 ASSUMPTIONS = [
     "reference = the real code on the trivial schedule (everything eager, immediately): a rule wrong under every schedule passes (that is C01)",
     "float comparison rtol=1e-6; sequential/moment_matching forcing only for programs without Gaussians (the core workload has none)",
